@@ -846,6 +846,50 @@ func E10FlatRestTurningPoint(c *core.Ctx, r *core.Report) {
 			}
 			return true
 		})
+		// a curve that returns to its start has no chord to look along: that case is tested and emits too
+		loopCase := false
+		ast.Inspect(is.Body, func(k ast.Node) bool {
+			inner, ok := k.(*ast.IfStmt)
+			if !ok {
+				return true
+			}
+			zeroTest := false
+			ast.Inspect(inner.Cond, func(q ast.Node) bool {
+				switch x := q.(type) {
+				case *ast.BinaryExpr:
+					if x.Op == token.EQL {
+						for _, side := range []ast.Expr{x.X, x.Y} {
+							if v := core.ConstVal(info, side); v != nil && numSign(v) == 0 {
+								zeroTest = true
+							}
+						}
+					}
+				case *ast.CallExpr:
+					if f := core.CalleeOf(info, x); f != nil && f.Name() == "Equals" {
+						zeroTest = true
+					}
+				}
+				return true
+			})
+			if !zeroTest {
+				return true
+			}
+			ast.Inspect(inner.Body, func(q ast.Node) bool {
+				if call, ok := q.(*ast.CallExpr); ok {
+					if f := core.CalleeOf(info, call); f != nil && f.Name() == "LineTo" {
+						loopCase = true
+					}
+				}
+				return true
+			})
+			return true
+		})
+		key2 := fmt.Sprintf("canvas.flattenQuadraticBezier|exit #%d|curve that returns to its start", n)
+		if loopCase {
+			r.OK("E10.flat-rest-turning-point", key2, c.Pos(is.Pos()), "")
+		} else {
+			r.Fail("E10.flat-rest-turning-point", key2, c.Pos(is.Pos()), "no case for a chord of length zero: a quadratic that ends where it starts (`M0 0Q50 50 0 0`, length 70.7) is flattened to its start point alone")
+		}
 		if dots && emits {
 			r.OK("E10.flat-rest-turning-point", key, c.Pos(is.Pos()), "")
 		} else {
